@@ -107,9 +107,33 @@ func decodeRequest(msg []byte, et int8) (res reqResult) {
 	return res
 }
 
-type bodyReader struct{ v tbin.Value }
+type bodyReader struct {
+	v    tbin.Value
+	skip bool // behave like generated code reading an older schema: Skip every field
+}
 
 func (b *bodyReader) Decode(sr stream.Reader) error {
+	if b.skip {
+		if err := sr.ReadStructBegin(); err != nil {
+			return err
+		}
+		for {
+			fh, ok, err := sr.ReadFieldBegin()
+			if err != nil {
+				return err
+			}
+			if !ok {
+				break
+			}
+			if err := sr.Skip(fh.Type); err != nil {
+				return err
+			}
+			if err := sr.ReadFieldEnd(); err != nil {
+				return err
+			}
+		}
+		return sr.ReadStructEnd()
+	}
 	v, err := wirex.StreamRead(sr, tbin.Struct)
 	b.v = v
 	return err
@@ -122,13 +146,33 @@ func (enveloper) EnvelopeType() wire.EnvelopeType { return wire.Reply }
 func (enveloper) Encode(sw stream.Writer) error   { return wirex.StreamWrite(sw, replyBody) }
 
 func readRequest(msg []byte, et int8, ck chunk.Chunking, seekable bool) (res reqResult) {
+	res = readRequestWith(msg, et, ck, seekable, false)
+	// the same request read by a body reader that skips every field (what
+	// generated code does with fields it does not know): must agree on
+	// acceptance, framing and reply.
+	sk := readRequestWith(msg, et, ck, seekable, true)
+	if sk.panic != "" {
+		return sk
+	}
+	if res.panic == "" && (sk.ok != res.ok || sk.framing != res.framing || !bytes.Equal(sk.reply, res.reply)) {
+		if res.ok && !sk.ok {
+			res.ok = false
+			res.errs = "skipping body reader rejected what the decoding body reader accepted: " + sk.errs
+		} else if res.ok {
+			res.errs = fmt.Sprintf("skipping body reader disagrees: framing %s reply %x", sk.framing, sk.reply)
+		}
+	}
+	return res
+}
+
+func readRequestWith(msg []byte, et int8, ck chunk.Chunking, seekable, skip bool) (res reqResult) {
 	defer func() {
 		if p := recover(); p != nil {
 			res = reqResult{panic: fmt.Sprint(p)}
 		}
 	}()
 	cr := ck.New(msg)
-	var br bodyReader
+	br := bodyReader{skip: skip}
 	var rw stream.ResponseWriter
 	var err error
 	if seekable {
